@@ -178,3 +178,39 @@ Proof.
       - destruct (existsb _ p); [inversion H; lia | specialize (IH _ _ _ H); lia]. }
     specialize (Hmono _ _ _ _ H). lia.
 Qed.
+
+(* ---- the trace monitor is exact: it returns None iff no write of the trace overlaps a pin that
+   is open when the write is issued ---- *)
+Fixpoint pins_after (pinned0 : list (N * N)) (evs : list eev) : list (N * N) :=
+  match evs with
+  | [] => pinned0
+  | EPin s n :: t => pins_after ((s, n) :: pinned0) t
+  | EUnpin s n :: t => pins_after (remove_one s n pinned0) t
+  | EWrite _ _ :: t => pins_after pinned0 t
+  end.
+
+Lemma pins_after_app p a b : pins_after p (a ++ b) = pins_after (pins_after p a) b.
+Proof. revert p. induction a as [|e t IH]; intros p; cbn; [reflexivity|]. destruct e; apply IH. Qed.
+
+Theorem emon_none_iff_no_write_into_open_pin evs : forall pinned0 i,
+  emon pinned0 evs i = None <->
+  forall j s n, nth_error evs j = Some (EWrite s n) ->
+    existsb (fun p => overlaps s n (fst p) (snd p)) (pins_after pinned0 (firstn j evs)) = false.
+Proof.
+  induction evs as [|e t IH]; intros p i; cbn [emon].
+  - split; [intros _ [|j] s n H; discriminate | reflexivity].
+  - destruct e as [s0 n0|s0 n0|s0 n0].
+    + rewrite IH. split.
+      * intros H [|j] s n Hj; [discriminate|]. cbn in Hj. cbn [firstn pins_after]. exact (H j s n Hj).
+      * intros H j s n Hj. specialize (H (S j) s n Hj). cbn [firstn pins_after] in H. exact H.
+    + rewrite IH. split.
+      * intros H [|j] s n Hj; [discriminate|]. cbn in Hj. cbn [firstn pins_after]. exact (H j s n Hj).
+      * intros H j s n Hj. specialize (H (S j) s n Hj). cbn [firstn pins_after] in H. exact H.
+    + destruct (existsb (fun q => overlaps s0 n0 (fst q) (snd q)) p) eqn:E.
+      * split; [discriminate|]. intros H. specialize (H 0%nat s0 n0 eq_refl). cbn in H. congruence.
+      * rewrite IH. split.
+        -- intros H [|j] s n Hj.
+           ++ cbn in Hj. inversion Hj. subst. cbn. exact E.
+           ++ cbn in Hj. cbn [firstn pins_after]. exact (H j s n Hj).
+        -- intros H j s n Hj. specialize (H (S j) s n Hj). cbn [firstn pins_after] in H. exact H.
+Qed.
